@@ -101,15 +101,17 @@ BatchReqMsgsQuick == BatchReqMsgsOver(2)
 BatchReqMsgsFull  == BatchReqMsgsOver(3)
 E1 == [cls |-> "MethodNotFoundError", code |-> "c_m32601", message |-> "s_a", data |-> Absent]
 E2 == [cls |-> "JsonRpcError", code |-> "i1", message |-> "s_esc", data |-> "null"]
+E3 == [cls |-> "JsonRpcError", code |-> "im1", message |-> "s_a", data |-> "i0"]     \* a code no class is registered for: the supplied base class
 BatchElemRespMsg == {[id |-> "i1", k |-> "result", v |-> "null", err |-> NoErr],
                      [id |-> "s_1", k |-> "result", v |-> "a_deep", err |-> NoErr],
                      [id |-> "i0", k |-> "error", v |-> NA, err |-> E1],
                      [id |-> "null", k |-> "error", v |-> NA, err |-> E2],
+                     [id |-> "s_a", k |-> "error", v |-> NA, err |-> E3],
                      [id |-> "null", k |-> "result", v |-> "i0", err |-> NoErr]}
 NoDupResp(s) == ~HasDup([i \in DOMAIN s |-> s[i].id], "null")
 BatchRespMsgsOver(n) ==
     {[k |-> "list", err |-> NoErr, els |-> s] : s \in {t \in SeqsUpTo(BatchElemRespMsg, n) : NoDupResp(t)}}
-    \cup {[k |-> "error", err |-> e, els |-> <<>>] : e \in {E1, E2}}
+    \cup {[k |-> "error", err |-> e, els |-> <<>>] : e \in {E1, E2, E3}}
 BatchRespMsgsQuick == BatchRespMsgsOver(2)
 BatchRespMsgsFull  == BatchRespMsgsOver(3)
 
